@@ -2,7 +2,6 @@ package main
 
 import (
 	"os"
-	"runtime/pprof"
 
 	"verifmc/engine/bfs"
 	"verifmc/engine/ev"
@@ -17,15 +16,8 @@ func main() {
 		bfs.WorkerMain(os.Args[2], os.Stdin, out)
 		return
 	}
-	if f := os.Getenv("VERIF_CPUPROFILE"); f != "" {
-		w, _ := os.Create(f)
-		pprof.StartCPUProfile(w)
-		defer pprof.StopCPUProfile()
-	}
 	c, _ := reg.Get("C31")
 	run := ev.NewRun(c.Property, c.Level)
 	c.Run(run)
-	rc := run.Finish()
-	pprof.StopCPUProfile()
-	os.Exit(rc)
+	os.Exit(run.Finish())
 }
